@@ -10,5 +10,6 @@ CONSTANTS
   QStarts = {0, 1, 2}
   QStops = {3, 5, 6}
   TimeCols = {"none", "start", "stop"}
-INVARIANTS TypeOK CursorContract TableContractModuloF18
+  EWSAsFound = FALSE
+INVARIANTS TypeOK CursorContract TableContract
 CHECK_DEADLOCK FALSE
